@@ -62,8 +62,25 @@ class StmtMixin(object):
     def s_Expr(self, s):
         e = s.e
         if e.k == 'Call' and self.is_dropped_call(e):
+            self.eval_dropped_args(e)
             return
         self.eval(e)
+
+    def eval_dropped_args(self, e):
+        """the output of a print / logging / warning call is dropped, but building its arguments can still raise (a '%g' applied to an object,
+        str + number): the argument expressions are evaluated for their modelled exceptions; whatever is outside the subset there is ignored"""
+        state = (len(self.obligations), self.in_spec)
+        for a in list(getattr(e, 'args', []) or []):
+            if not any(n.k in ('BinOp', 'Call') for n in walk(a)):
+                continue
+            try:
+                self.eval(a)
+            except Unsupported:
+                pass
+            except (RaiseSig, PathEnd, ReturnSig, BreakSig, ContinueSig, EngineError):
+                raise
+            except Exception:
+                pass
 
     def is_dropped_call(self, e):
         f = e.func
@@ -248,12 +265,16 @@ class StmtMixin(object):
                 cur.extend(v)
                 return
             fake = N('BinOp', s.line, op=s.op, l=t, r=s.value)
+            if self._inplace_array_op(cur, s.op, v, fake, s.line):
+                return
             self.assign_name(t.id, self.binop(s.op, cur, v, fake), s.line)
         elif t.k == 'Attr':
             o = self.eval(t.obj)
             cur = self.getattr_value(o, t.attr, s.line)
             v = self.eval(s.value)
             fake = N('BinOp', s.line, op=s.op, l=t, r=s.value)
+            if self._inplace_array_op(cur, s.op, v, fake, s.line):
+                return
             self.set_attr(o, t.attr, self.binop(s.op, cur, v, fake), s.line)
         elif t.k == 'Index':
             base = self.eval(t.base)
@@ -282,6 +303,25 @@ class StmtMixin(object):
                     raise Unsupported('augmented assignment into %r' % type(base).__name__)
         else:
             raise Unsupported('augmented assignment target')
+
+    def _inplace_array_op(self, cur, op, v, node, line):
+        """numpy: `a op= b` on an ndarray updates the array object IN PLACE - every alias (the object a getter returned by reference) sees
+        the new contents.  (Rebinding the name to a fresh array here hid seed C06-d: the model's own stoichiometry array was overwritten.)"""
+        if not (isinstance(cur, Arr) and cur.kind == 'ndarray' and cur.objs is None):
+            return False
+        if isinstance(cur, arrays.ViewArr):
+            raise Unsupported('augmented assignment to an array view (line %s)' % line)
+        res = self.binop(op, cur, v, node)
+        if not (isinstance(res, Arr) and res.ndim == cur.ndim):
+            raise Unsupported('augmented assignment changes the rank of an array (line %s)' % line)
+        for a, b in zip(cur.shape, res.shape):
+            if a is not None and b is not None and a is not b and not (isinstance(a, int) and isinstance(b, int) and a == b):
+                self.oblige('bounds', tm.eq(arrays.to_term(a), arrays.to_term(b)), label=cur.name, line=line, note='in-place array operation keeps the shape')
+        self.note_write(('A', cur.oid), cur.name)
+        cur.term = res.term if res.elem == cur.elem else arrays.map1(self, res, lambda x: arrays.coerce_elem(self, cur, x, line)).term
+        if getattr(res, 'nan', None) is not None:
+            cur.nan = res.nan
+        return True
 
     def _simple_assign_block(self, body):
         """[(name, value_node)] if the block consists only of assignments of call-free expressions to local names"""
